@@ -26,7 +26,7 @@ class Q:
     """One solver query (plus its witness twin)."""
     def __init__(s, name, harness, entry, defines=(), cxx=(), exc=False, cuts=(), models=(), unwind=8, paths=False,
                  vra='sc', cdefs=(), tier='quick', timeout=None, witness=True, expect='hold', kf=None, solver='kissat',
-                 bounds='', what='', validate=60, cbmc=(), unwindset=(), mem_gb=16, depth=None, libmodels=(), forbid=(), byteloops=False, zero=()):
+                 bounds='', what='', validate=60, cbmc=(), unwindset=(), mem_gb=16, depth=None, libmodels=(), forbid=(), byteloops=False, zero=(), hooks=()):
         s.__dict__.update(locals()); del s.__dict__['s']
 
 def sh(cmd, timeout=None, env=None, cwd=None, mem_gb=None):
@@ -57,15 +57,17 @@ def build_c(q, bdir, log):
     rc, out, t1 = sh(['opt-14', '-S', '-passes=loop-simplify', ll, '-o', ll + '.ls'], timeout=600)
     if rc: raise CheckError('opt loop-simplify failed: ' + out[-2000:])
     os.replace(ll + '.ls', ll)
-    rc, out, t2 = sh(['python3', os.path.join(ENG, 'irpass.py'), ll, pll, '-j' + os.path.join(bdir, 'irp.json')] + ['-c' + c for c in q.cuts] + ['-f' + c for c in q.forbid] + ['-z' + c for c in q.zero], timeout=600)
+    rc, out, t2 = sh(['python3', os.path.join(ENG, 'irpass.py'), ll, pll, '-j' + os.path.join(bdir, 'irp.json')] + ['-c' + c for c in q.cuts] + ['-f' + c for c in q.forbid] + ['-z' + c for c in q.zero] + ['-r' + c for c in q.hooks], timeout=600)
     if rc: raise CheckError('irpass failed: ' + out[-4000:])
     rc, out, t3 = sh(['python3', os.path.join(ENG, 'll2c.py'), pll, gen, q.entry, '-j' + os.path.join(bdir, 'l2c.json')], timeout=900,
                      env=dict(os.environ, VLL_BYTELOOPS='1' if q.byteloops else '0'))
     if rc: raise CheckError('ll2c failed (unsupported construct => no verdict):\n' + out[-4000:])
     irp = json.load(open(os.path.join(bdir, 'irp.json'))); l2c = json.load(open(os.path.join(bdir, 'l2c.json')))
+    for hk in q.hooks:
+        if not any(re.search(hk.rsplit('=', 1)[0], n) for n in irp.get('hooks', [])): raise CheckError('hook pattern %r matched no function (inlined away?)' % hk)
     for rx in list(q.zero):
         if not any(re.search(rx, n) for n in irp.get('zero_stubs', [])) and not os.environ.get('VERIF_LAX_STUBS'): raise CheckError('stub pattern %r matched no function (inlined away?)' % rx)
-    return {'ll': ll, 'pll': pll, 'gen': gen, 'build_s': round(t + t2 + t3, 2), 'cut': irp['cut'], 'forbidden': irp.get('forbidden', []), 'zero_stubs': irp.get('zero_stubs', []), 'atomics': irp['atomics'],
+    return {'ll': ll, 'pll': pll, 'gen': gen, 'build_s': round(t + t2 + t3, 2), 'cut': irp['cut'], 'forbidden': irp.get('forbidden', []), 'zero_stubs': irp.get('zero_stubs', []), 'hooks': irp.get('hooks', []), 'atomics': irp['atomics'],
             'translated': l2c['translated'], 'external': l2c['external']}
 
 def rt_files(q, real=False):
@@ -211,7 +213,7 @@ def run_query(q, pid, tier, seed, bdir_root, log):
     tmo = q.timeout or (170 if tier == 'quick' else 1500)
     try:
         b = build_c(q, bdir, log)
-        res.update(zero_stubs=b['zero_stubs'], functions_encoded=len(b['translated']), forbidden_functions=len(b['forbidden']), cuts=b['cut'], atomics=len(b['atomics']), build_s=b['build_s'])
+        res.update(hooks=b['hooks'], zero_stubs=b['zero_stubs'], functions_encoded=len(b['translated']), forbidden_functions=len(b['forbidden']), cuts=b['cut'], atomics=len(b['atomics']), build_s=b['build_s'])
         res['_translated'] = b['translated']; res['_external'] = b['external']; res['_atomics'] = b['atomics']
         with cf.ThreadPoolExecutor(3) as ex:
             fv = ex.submit(validate, q, b, bdir, seed, log)
